@@ -12,7 +12,13 @@ verus! {
 // a part of a statement (Value, Block, Index, nested statement ...): its net dependencies are an abstract callee, compared as a set
 #[verifier::external_body] pub struct PartV { x: usize }
 pub uninterp spec fn nd(p: PartV) -> Set<Dep>;
-impl PartV { #[verifier::external_body] pub fn net_dependencies(&self) -> (r: Vec<Dep>) ensures r@.to_set() == nd(*self) { unimplemented!() } }
+// what a part mentions before its OWN declarations are subtracted (`dependencies`): NOT known to equal nd -- a block's locals are in it, and
+// a name that is only a block's local must not end up in the capture list of the enclosing function
+pub uninterp spec fn all_mentions(p: PartV) -> Set<Dep>;
+impl PartV {
+    #[verifier::external_body] pub fn net_dependencies(&self) -> (r: Vec<Dep>) ensures r@.to_set() == nd(*self) { unimplemented!() }
+    #[verifier::external_body] pub fn dependencies(&self) -> (r: Vec<Dep>) ensures r@.to_set() == all_mentions(*self) { unimplemented!() }
+}
 pub open spec fn ndo(p: Option<PartV>) -> Set<Dep> { match p { Some(x) => nd(x), None => Set::<Dep>::empty() } }
 pub proof fn lemma_append_set(a: Seq<Dep>, b: Seq<Dep>) ensures (a + b).to_set() == a.to_set().union(b.to_set()) {
     assert forall|x: Dep| (a + b).to_set().contains(x) == a.to_set().union(b.to_set()).contains(x) by {
@@ -109,7 +115,7 @@ def build(repo):
     }}
 }}
 """)
-        obls.append(Obl(f"C07.deps.stmt.{oid}", ["C07"], fn=f"{recv}::dependencies", desc=f"{recv}::dependencies: {desc}"))
+        obls.append(Obl(f"C07.deps.stmt.{oid}", ["C07", "C01"] if oid in ("if", "else", "while", "from", "return") else ["C07"], fn=f"{recv}::dependencies", desc=f"{recv}::dependencies: {desc} -- each part's NET dependencies (a block's own locals are not captured)"))
     fd = src.fn(AST + "dot_lookup.rs", "dependencies", "impl Dependencies for DotChain")
     inv = ("invariant $K <= self.links@.len(), result@.to_set() == chain_deps(self.links@.subrange(0, $K as int)) decreases self.links@.len() - $K")
     bd = translate(fd["body"], RULES + [
@@ -187,6 +193,6 @@ def build(repo):
     return gen, obls, log
 
 
-UNITS = [VUnit("c07_stmt_deps", ["C07", "C02"], "what a statement depends on = what a closure must capture", build)]
+UNITS = [VUnit("c07_stmt_deps", ["C07", "C02", "C01"], "what a statement depends on = what a closure must capture", build)]
 UNITS[0].assumes = ["the statements' struct shapes (field names, Option / Box kinds) are written by hand from the declarations; a renamed field fails closed (does not compile -> undecided)",
                     "net_dependencies of every part is an abstract callee, compared as a set; get_net_dependencies (the supplies filter), Block, Function and Class are not under contract here"]
